@@ -168,7 +168,7 @@ def corrupt(ev, module="TraceEval"):
         if st.get("fn") == "fmt" and "s" in o:
             for i, c in enumerate(o["s"]):
                 if 48 <= c <= 57:
-                    o["s"][i] = 48 + (c - 48 + 1) % 10
+                    o["s"][i] = 48 + (c - 48 + 5) % 10      # by 5: a tie may go either way, never this far
                     return e
             return None
         if "x" in o and st.get("fn") in ("round", "numrt", "number"):
